@@ -181,4 +181,75 @@ theorem mem_foldl_erase {γ : Type} (f : γ → α) {e : α × β} (ps : List γ
     simp only [List.foldl_cons] at h
     exact (mem_erase.mp (ih _ h)).1
 
+/-! ### order invariants of the stored list -/
+theorem pairwise_erase {R : α × β → α × β → Prop} (k : α) {m : List (α × β)} (h : m.Pairwise R) :
+    (erase lt k m).Pairwise R := h.filter _
+
+theorem pairwise_insSorted_all {R : α × β → α × β → Prop} (x : α × β) {m : List (α × β)}
+    (hx : ∀ e ∈ m, R x e ∧ R e x) (h : m.Pairwise R) : (insSorted lt x m).Pairwise R := by
+  induction m with
+  | nil => simp [insSorted]
+  | cons e es ih =>
+    rw [List.pairwise_cons] at h
+    simp only [insSorted]
+    split
+    · rw [List.pairwise_cons]
+      refine ⟨fun e' he' => (hx e' he').1, ?_⟩
+      rw [List.pairwise_cons]; exact h
+    · rw [List.pairwise_cons]
+      refine ⟨fun e' he' => ?_, ih (fun e' he' => hx e' (by simp [he'])) h.2⟩
+      rcases mem_insSorted.mp he' with h1 | h1
+      · rw [h1]; exact (hx e (by simp)).2
+      · exact h.1 e' h1
+
+/-- no two stored items are the same item for the tree -/
+def NoDup (lt : α → α → Bool) (m : List (α × β)) : Prop := m.Pairwise fun a b => eqv lt a.1 b.1 = false
+
+theorem nodup_erase (k : α) {m : List (α × β)} (h : NoDup lt m) : NoDup lt (erase lt k m) := pairwise_erase k h
+
+theorem nodup_insert (k : α) (v : β) {m : List (α × β)} (h : NoDup lt m) : NoDup lt (insert lt k v m) := by
+  apply pairwise_insSorted_all
+  · intro e he
+    have := (mem_erase.mp he).2
+    exact ⟨this, by rw [eqv_comm]; exact this⟩
+  · exact nodup_erase k h
+
+/-- the stored list ascends along a measure that `Less` respects -/
+theorem sorted_insSorted (f : α × β → Int) (x : α × β) {m : List (α × β)}
+    (h1 : ∀ e : α × β, lt x.1 e.1 = true → f x ≤ f e) (h2 : ∀ e : α × β, lt x.1 e.1 = false → f e ≤ f x)
+    (h : m.Pairwise fun a b => f a ≤ f b) : (insSorted lt x m).Pairwise fun a b => f a ≤ f b := by
+  induction m with
+  | nil => simp [insSorted]
+  | cons e es ih =>
+    rw [List.pairwise_cons] at h
+    simp only [insSorted]
+    split
+    · rename_i hlt
+      rw [List.pairwise_cons]
+      refine ⟨fun e' he' => ?_, by rw [List.pairwise_cons]; exact h⟩
+      rcases List.mem_cons.mp he' with h3 | h3
+      · rw [h3]; exact h1 e hlt
+      · exact Int.le_trans (h1 e hlt) (h.1 e' h3)
+    · rename_i hlt
+      have hlt' : lt x.1 e.1 = false := by simpa using hlt
+      rw [List.pairwise_cons]
+      refine ⟨fun e' he' => ?_, ih h.2⟩
+      rcases mem_insSorted.mp he' with h3 | h3
+      · rw [h3]; exact h2 e hlt'
+      · exact h.1 e' h3
+
+/-- in an ascending list `takeWhile (f · ≤ w)` takes every item at or below `w` -/
+theorem mem_takeWhile_sorted (f : α × β → Int) (w : Int) {m : List (α × β)}
+    (h : m.Pairwise fun a b => f a ≤ f b) {x : α × β} (hx : x ∈ m) (hw : f x ≤ w) :
+    x ∈ m.takeWhile fun e => decide (f e ≤ w) := by
+  induction m with
+  | nil => cases hx
+  | cons e es ih =>
+    rw [List.pairwise_cons] at h
+    rcases List.mem_cons.mp hx with h1 | h1
+    · rw [← h1]; simp [List.takeWhile_cons, hw]
+    · have : f e ≤ w := Int.le_trans (h.1 x h1) hw
+      simp only [List.takeWhile_cons, this, decide_true, if_true, List.mem_cons]
+      right; exact ih h.2 h1
+
 end Octo.TMap
